@@ -8,6 +8,7 @@ import math, os, random, re, shutil, subprocess, sys, tempfile
 from concurrent.futures import ThreadPoolExecutor
 from fractions import Fraction as Fr
 
+os.environ.setdefault("OMP_NUM_THREADS", "1")     # many runs in parallel: one thread each (no oversubscription, no timeouts under load)
 VERIF = os.path.dirname(os.path.dirname(os.path.abspath(__file__)))
 KCAL2KJ = 4.18679994            # tools/constants.h (the reader multiplies forces by kcal2kj / ang2nm)
 ANG2NM = 0.1
@@ -280,7 +281,7 @@ def run_one(exe, s):
         maps, refF = write_inputs(s, d)
         cmd = [exe, "--top", "topol.xml", "--trj", "traj.dump", "--cg", ";".join(maps), "--options", "opt.xml"]
         try:
-            r = subprocess.run(cmd, cwd=d, stdout=subprocess.PIPE, stderr=subprocess.PIPE, timeout=300)
+            r = subprocess.run(cmd, cwd=d, stdout=subprocess.PIPE, stderr=subprocess.PIPE, timeout=900)
             status = "ok" if r.returncode == 0 else ((r.stdout.decode(errors="replace")[-150:] + r.stderr.decode(errors="replace")[-150:]).strip()[-120:].encode().hex() or "-")
         except subprocess.TimeoutExpired:
             status = "timeout".encode().hex()
